@@ -24,6 +24,7 @@ import (
 	"fmt"
 	"hash/fnv"
 	"strings"
+	"time"
 
 	"github.com/postalsys/muti-metroo/internal/verifkit"
 )
@@ -287,6 +288,140 @@ func convRunOpt(rng *verifkit.Rand, g simGraph, class string, opt convOpt) *conv
 		}
 	default:
 		panic("unknown class " + class)
+	}
+	return res
+}
+
+// simLadder builds a graph with an equal-length alternative behind one neighbour: a tail
+// t_1 - ... - t_tail - D, `branches` parallel two-link ways D - b_i - A, and the far end A
+// (optionally followed by one more agent). Node 0 is the head of the tail.
+func simLadder(tail, branches int, beyond bool) simGraph {
+	g := simGraph{}
+	n := 0
+	next := func() int { n++; return n - 1 }
+	prev := -1
+	for i := 0; i < tail; i++ {
+		x := next()
+		if prev >= 0 {
+			g.Edges = append(g.Edges, [2]int{prev, x})
+		}
+		prev = x
+	}
+	d := next()
+	if prev >= 0 {
+		g.Edges = append(g.Edges, [2]int{prev, d})
+	}
+	var bs []int
+	for i := 0; i < branches; i++ {
+		b := next()
+		bs = append(bs, b)
+		g.Edges = append(g.Edges, [2]int{d, b})
+	}
+	a := next()
+	for _, b := range bs {
+		g.Edges = append(g.Edges, [2]int{b, a})
+	}
+	if beyond {
+		z := next()
+		g.Edges = append(g.Edges, [2]int{a, z})
+	}
+	g.N = n
+	return g
+}
+
+// convReroute: class "reroute" — pure flooding to convergence on graph g (which must have a
+// cycle), then one or two topology changes: a link whose removal keeps the mesh connected is
+// taken down (real disconnect cleanup on both ends; nobody else is told), every agent sends
+// its next periodic announcement, the network quiesces, and every agent runs its stale-route
+// cleanup with an age that reaches back exactly to the change (what routeAdvertiseLoop does
+// with route_ttl once the topology has been stable for that long). The result is a stable,
+// connected topology again and is judged like any other.
+func convReroute(rng *verifkit.Rand, g simGraph) *convResult {
+	s := newSimNet(g.N, nil)
+	res := &convResult{S: s, G: g, Class: "reroute", Adverts: map[int][]simRouteKey{}, Quiesced: true}
+	sc := &simSched{DupPct: 6, MaxDups: 3, MaxSteps: 4000 + 400*(len(g.Edges)+1)*g.N}
+	s.ConnectGraph(g)
+	// every agent is an exit for one route of each kind with probability 1/2; at least two are
+	for o := 0; o < g.N; o++ {
+		if o > 1 && rng.Bool() {
+			continue
+		}
+		for _, key := range []simRouteKey{
+			{Kind: "cidr", Key: simCIDR(o, rng.Chance(1, 4)).String()},
+			{Kind: "domain", Key: simDomain(o, rng.Bool(), 0)},
+			{Kind: "forward", Key: fmt.Sprintf("fwd-%d", o), Target: "127.0.0.1:80"},
+		} {
+			if s.AddLocal(o, key) {
+				res.Adverts[o] = append(res.Adverts[o], key)
+			}
+		}
+	}
+	convAnnounceAll(s, rng)
+	res.Quiesced = s.simRunRandom(rng, sc)
+	var removed [][2]int
+	for step := rng.Range(1, 2); step > 0 && res.Quiesced; step-- {
+		// candidate links: removal keeps the graph connected
+		cur := s.Graph()
+		var cands [][2]int
+		for i, e := range cur.Edges {
+			h := simGraph{N: cur.N}
+			h.Edges = append(append([][2]int{}, cur.Edges[:i]...), cur.Edges[i+1:]...)
+			if h.connected() {
+				cands = append(cands, e)
+			}
+		}
+		if len(cands) == 0 {
+			break
+		}
+		e := cands[rng.Intn(len(cands))]
+		tChange := simTick()
+		for time.Since(tChange) < 200*time.Microsecond { // keep "before" and "after" the change well apart on the clock
+		}
+		s.Disconnect(e[0], e[1])
+		removed = append(removed, e)
+		if rng.Bool() {
+			convSomeDeliveries(s, rng, rng.Intn(6))
+		}
+		for k := rng.Range(1, 2); k > 0 && res.Quiesced; k-- {
+			convAnnounceAll(s, rng)
+			res.Quiesced = s.simRunRandom(rng, sc)
+		}
+		// agent.routeAdvertiseLoop: cleanup of routes not refreshed since the change. The age is
+		// chosen so that the cut lies at tChange; the cleanup reads the clock itself a moment
+		// later, so a pause in between could also cut entries refreshed right after the change.
+		// That is detected exactly (by LastUpdate vs tChange) and healed by one more round of
+		// announcements, so the clock can never turn into a verdict.
+		overcut := false
+		for i := 0; i < s.N; i++ {
+			fresh := map[string]bool{}
+			for _, l := range s.Learned(i) {
+				if !l.LastUpdate.Before(tChange) {
+					fresh[fmt.Sprintf("%d|%s|%d", l.Origin, l.K, l.NextHop)] = true
+				}
+			}
+			m := s.Nodes[i].Mgr
+			age := time.Since(tChange)
+			m.CleanupStaleRoutes(age)
+			m.CleanupStaleDomainRoutes(age)
+			m.CleanupStaleForwardRoutes(age)
+			m.CleanupStaleAgentRoutes(age)
+			for _, l := range s.Learned(i) {
+				delete(fresh, fmt.Sprintf("%d|%s|%d", l.Origin, l.K, l.NextHop))
+			}
+			if len(fresh) > 0 {
+				overcut = true
+			}
+		}
+		if overcut && res.Quiesced {
+			s.tr("cleanup cut too late on the clock: one more announcement round")
+			convAnnounceAll(s, rng)
+			res.Quiesced = s.simRunRandom(rng, sc)
+		}
+		s.tr("stale-route cleanup on all agents")
+	}
+	res.Desc = fmt.Sprintf("reroute %s adverts=%v links-removed=%v", g, res.Adverts, removed)
+	if len(removed) == 0 {
+		res.Desc += " (no removable link)"
 	}
 	return res
 }
